@@ -455,4 +455,113 @@ theorem weightedMeanSd_ok (mc : List (Rat × Rat)) (h : 2 ≤ mc.length) :
   rw [if_neg (by omega)]
   exact ⟨_, rfl, rfl, rfl, rfl, rfl⟩
 
+/-! ### ensembles of identical tracks; OLS under scaling -/
+
+theorem mapM_ok {α β ε} (f : α → Except ε β) (g : α → β) :
+    ∀ (l : List α), (∀ x ∈ l, f x = .ok (g x)) → l.mapM f = .ok (l.map g)
+  | [], _ => by simp [pure, Except.pure]
+  | x :: l, h => by
+    rw [List.mapM_cons, h x (by simp), mapM_ok f g l (fun y hy => h y (by simp [hy]))]
+    rfl
+
+theorem filter_lag_singleton : ∀ (rows : List MsdRow), (rows.map (·.lag)).Pairwise (· < ·) →
+    ∀ r ∈ rows, rows.filter (fun x => x.lag == r.lag) = [r]
+  | [], _, r, hr => by simp at hr
+  | a :: rows, hs, r, hr => by
+    rw [List.map_cons, List.pairwise_cons] at hs
+    rcases List.mem_cons.mp hr with rfl | hr'
+    · rw [List.filter_cons]
+      simp only [beq_self_eq_true, if_true]
+      congr 1
+      rw [List.filter_eq_nil_iff]
+      intro x hx
+      have := hs.1 x.lag (List.mem_map.mpr ⟨x, hx, rfl⟩)
+      simp; omega
+    · rw [List.filter_cons]
+      have := hs.1 r.lag (List.mem_map.mpr ⟨r, hr', rfl⟩)
+      have hne : (a.lag == r.lag) = false := by simp; omega
+      simp only [hne, Bool.false_eq_true, if_false]
+      exact filter_lag_singleton rows hs.2 r hr'
+
+theorem flat_filter_replicate (rows : List MsdRow) (hs : (rows.map (·.lag)).Pairwise (· < ·)) (k : Nat)
+    (r : MsdRow) (hr : r ∈ rows) :
+    (List.replicate k rows).flatten.filter (fun x => x.lag == r.lag) = List.replicate k r := by
+  rw [List.filter_flatten, List.map_replicate, filter_lag_singleton rows hs r hr,
+    List.flatten_replicate_singleton]
+
+theorem mem_flat_replicate (rows : List MsdRow) (k : Nat) (hk : 0 < k) (x : MsdRow) :
+    x ∈ (List.replicate k rows).flatten ↔ x ∈ rows := by
+  rw [List.mem_flatten]
+  constructor
+  · rintro ⟨l, hl, hx⟩
+    rw [(List.mem_replicate.mp hl).2] at hx; exact hx
+  · intro hx
+    exact ⟨rows, List.mem_replicate.mpr ⟨by omega, rfl⟩, hx⟩
+
+theorem meanVar_replicate (x c : Rat) (k : Nat) (hk : 2 ≤ k) (hc : c ≠ 0) :
+    meanVar (List.replicate k (x, c)) = (x, 0) := by
+  have hk0 : (k : Rat) ≠ 0 := by
+    have : (0 : Rat) < k := by exact_mod_cast (by omega : 0 < k)
+    exact ne_of_gt this
+  unfold meanVar
+  simp only [List.map_replicate, sum_replicate_rat, sqr, List.length_replicate]
+  have hm : (k : Rat) * (x * c) / (k * c) = x := by field_simp
+  rw [hm]
+  simp
+
+theorem covEntry_scale (n a b c : Rat) (i j : Nat) :
+    covEntry n (c * a) (c * b) i j = c * c * covEntry n a b i j := by
+  simp only [covEntry, sqr]
+  split_ifs <;> ring
+
+theorem olsVarSlope_scale (lags : List Rat) (n a b c : Rat) :
+    olsVarSlope lags n (c * a) (c * b) = c * c * olsVarSlope lags n a b := by
+  unfold olsVarSlope
+  simp only [covEntry_scale]
+  rw [← sum_map_mul_left (c * c), List.map_flatMap]
+  congr 1
+  congr 1; funext r
+  rw [List.map_map]
+  congr 1; funext x
+  simp only [Function.comp]; ring
+
+theorem rabs_mul_sq (c v : Rat) : rabs (c * c * v) = c * c * rabs v := by
+  unfold rabs
+  have h : 0 ≤ c * c := mul_self_nonneg c
+  by_cases hv : v < 0
+  · by_cases hc : c * c = 0
+    · simp [hc]
+    · have : 0 < c * c := lt_of_le_of_ne h (Ne.symm hc)
+      rw [if_pos (by nlinarith), if_pos hv]; ring
+  · rw [if_neg (by nlinarith), if_neg hv]
+
+theorem olsLine_scale (pts : List (Rat × Rat)) (c : Rat) :
+    olsLine (pts.map fun p => (p.1, c * p.2)) = (c * (olsLine pts).1, c * (olsLine pts).2) := by
+  simp only [olsLine, List.map_map, List.length_map, Function.comp_def]
+  have h1 : (pts.map fun p => c * p.2).sum = c * (pts.map (·.2)).sum := sum_map_mul_left' c _ pts
+  have h2 : (pts.map fun p => p.1 * (c * p.2)).sum = c * (pts.map fun p => p.1 * p.2).sum := by
+    rw [← sum_map_mul_left']; congr 1; apply List.map_congr_left; intro p _; ring
+  rw [h1, h2]
+  simp only [Prod.mk.injEq]
+  constructor <;> ring
+
+theorem olsDen_scale (pts : List (Rat × Rat)) (c : Rat) :
+    olsDen (pts.map fun p => (p.1, c * p.2)) = olsDen pts := by
+  simp only [olsDen, List.map_map, List.length_map, Function.comp_def]
+
+theorem ptsOf_scale (rows : List MsdRow) (c : Rat) :
+    ptsOf (rows.map fun r => ⟨r.lag, c * r.msd, r.count⟩) = (ptsOf rows).map fun p => (p.1, c * p.2) := by
+  simp only [ptsOf, List.map_map, Function.comp_def]
+
+theorem olsFromRows_scale (rows : List MsdRow) (n : Nat) (dt c : Rat) :
+    olsFromRows (rows.map fun r => ⟨r.lag, c * c * r.msd, r.count⟩) n dt true 1 =
+      (olsFromRows rows n dt true 1).map fun e =>
+        ⟨c * c * e.value, c * c * (c * c) * e.var, c * c * e.lv, e.varDefined⟩ := by
+  unfold olsFromRows
+  simp only [ptsOf_scale, olsDen_scale, olsLine_scale, List.length_map, List.map_map, Function.comp_def]
+  split
+  · rfl
+  · simp only [Except.map, olsVarSlope_scale, rabs_mul_sq, if_true, Except.ok.injEq, Est.mk.injEq, and_true]
+    refine ⟨by ring, by ring, by ring⟩
+
 end Verif.C09
